@@ -3,8 +3,10 @@
 //
 // Bounded exhaustive exploration: abstract body trees (verif/gen/bodytree),
 // each rendered canonically and in every layout with <= k deviations
-// (indentation, blank lines, every comment form in every legal slot, spacing
-// of header/one-line gaps, CRLF, missing final newline, BOM), are parsed by
+// (indentation with spaces, tabs and mixes, blank lines, trailing blanks, every
+// comment form in every legal slot, spacing of header/one-line gaps, blanks
+// around the lines of heredoc values, CRLF, missing final newline, BOM), are
+// parsed by
 // the real hclsyntax.ParseConfig / hclparse.Parser.ParseHCL and the result is
 // compared with the tree through three views: the hclsyntax.Body fields,
 // hcl.Body.Content with a schema derived from the tree, and JustAttributes.
@@ -544,12 +546,13 @@ func main() {
 			"F3 every sequence of <= 3 (top level) / <= 2 (inside a block) items (thorough 4/3) over 14 representative items (8 value kinds, 6 block shapes incl. same-type blocks and a block ending in a heredoc); " +
 			"F4 every tree shape with <= 5 items in total (thorough 6), <= 3 per body (4), nesting depth <= 2 (3); F5 small trees with an extended alphabet of 14 comment texts that look like other syntax plus extra spacing variants; " +
 			"F6 every such body with one attribute name defined twice (top level, nested one and two levels, next to a single definition in the parent). " +
-			"Renderings of each tree: canonical + every single deviation (quick; thorough adds every pair for the quick space): indentation none/tab; blank line or own-line comment before every item, before every closing brace and at end of file; inline comment before the first token of a line; trailing comment after every item, after every opening and closing brace; no space/tab/inline comment in every gap of a block header, around '=', and inside one-line blocks; comments inside multi-line values; CRLF everywhere; missing final newline (also combined with a comment on the last line); every line-comment/blank-line/multi-line-comment deviation also in a CRLF file; BOM (unspecified: accepted or rejected, but the same tree if accepted). " +
+			"Renderings of each tree: canonical + every single deviation (quick; thorough adds every pair for the quick space): indentation none/tab/space-tab/tab-space (each also with CRLF); blank line, tab-only line or own-line comment before every item, before every closing brace and at end of file; inline comment before the first token of a line; trailing comment or trailing blanks (space, tab; also with CRLF) after every item, after every opening and closing brace; the lines of every heredoc value, `<<X` and `<<-X`: blanks (none, space, tab, space-tab, tab-space, the indentation of the attribute, one level deeper) before the closing marker, blanks after it, the same before the body line of `<<-X`, each in LF, CRLF, tab-indented LF and tab-indented CRLF files; no space/tab/inline comment in every gap of a block header, around '=', and inside one-line blocks; comments inside multi-line values; CRLF everywhere; missing final newline (also combined with a comment on the last line); every line-comment/blank-line/multi-line-comment deviation also in a CRLF file; BOM (unspecified: accepted or rejected, but the same tree if accepted). " +
 			"Non-trivial = every rendering of the tree judged; distinct = distinct trees (canonical dump).",
 		Assumptions: []string{
 			"go-cty value equality is trusted; attribute values are fixed constants whose expected value is written down by hand",
 			"the label reference unescaper (verif/gen/bodytree.Unescape) is the specification's escape table; it does not call the code under test",
-			"spec-silent: BOM acceptance; whether a heredoc body line break keeps its CR in a CRLF file (either value accepted)",
+			"spec-silent: BOM acceptance; whether a heredoc body line break keeps its CR in a CRLF file (either value accepted); how much of a tab-containing indentation the `<<-` flush rule removes (only the content after the indentation is demanded)",
+			"the closing marker of a heredoc (`<<X` and `<<-X`) 'on a line of its own' may have whitespace (spaces, horizontal tabs: hclsyntax/spec.md 'Comments and Whitespace') before and after it on that line",
 		},
 		Gen:    genAll,
 		Judge:  judge,
@@ -570,6 +573,6 @@ func main() {
 			return m
 		},
 		QuickBudget:    5 * time.Minute,
-		ThoroughBudget: 35 * time.Minute,
+		ThoroughBudget: 50 * time.Minute, // ~92 M renderings since the heredoc-line / trailing-blank slots were added (was 65 M, 24 min)
 	})
 }
